@@ -45,6 +45,20 @@ class Obj:
         self.spec_index = k
 
 
+def norm_ops(base_len, ops):
+    """Clamp drawn copy operations into the base (keeps every drawn case valid by construction)."""
+    out = []
+    for o in ops:
+        if o[0] == "c":
+            if base_len == 0:
+                continue
+            off = min(o[1], base_len - 1)
+            out.append(("c", off, max(1, min(o[2], base_len - off))))
+        else:
+            out.append(("i", bytes(o[1])))
+    return out or [("i", b"x")]
+
+
 def materialise(specs, hash_len=20):
     """-> list of Obj, one per spec (duplicates by id are possible: the caller dedups)."""
     objs = []
@@ -64,7 +78,7 @@ def materialise(specs, hash_len=20):
             t, data = 3, b[:pos] + bytes(ins) + b[pos + dele :]
         elif kind == "D":
             _, i, ops = s
-            t, data = 3, ref.make_delta(objs[i].data, [tuple(o) for o in ops])[1]
+            t, data = 3, ref.make_delta(objs[i].data, norm_ops(len(objs[i].data), ops))[1]
         elif kind == "T":
             ents = []
             seen = set()
@@ -147,44 +161,65 @@ def strategies():
     small = st.binary(max_size=40)
     msg = st.sampled_from([b"", b"m\n", b"subject\n\nbody\n", b"no newline", b"\n\n"])
 
+    PROFILES = dict(
+        # name: (families, root sizes, max members per family, extra blobs, allow D-ops)
+        plain=((0, 3), [40, 300, 1000, 2047, 2048, 4096, 8192, 20000, 65535, 65536, 65537] + BOUNDARY_SIZES, 3, 6, False),
+        # Myers in the debug-profile Rust build costs (N+M)*D, difflib is quadratic: unrelated pairs must stay small
+        deltify=((1, 2), [15, 16, 40, 127, 128, 300, 600], 8, 2, False),
+        deltify1=((1, 1), [1000, 2047, 2048, 4096], 7, 0, False),
+        hand=((1, 3), [0, 16, 40, 127, 128, 300, 2047, 2048, 8192, 65536, 70000, 140000], 8, 4, True),
+        git=((1, 3), [40, 300, 1000, 2047, 2048, 5000, 20000, 70000], 10, 4, False),
+        gitdeep=((1, 1), [300, 1000, 3000], 58, 0, False),
+    )
+
     @st.composite
-    def specs(draw, max_objs=40, max_blob=65537, huge=False, family_bias=True, min_objs=0):
+    def specs(draw, profile="plain", max_objs=40, huge=False):
+        (fmin, fmax), sizes, maxmem, maxextra, dops = PROFILES[profile]
         out = []
         blobs, trees, commits, tags = [], [], [], []
-        nfam = draw(st.integers(0 if min_objs == 0 else 1, 3))
+        nfam = draw(st.integers(fmin, fmax))
         budget = max_objs
         for _ in range(nfam):
             if budget <= 0:
                 break
-            form = draw(st.sampled_from(["P", "P", "R", "B", "size"]))
-            if form == "P":
-                n = draw(st.sampled_from([40, 300, 1000, 2047, 2048, 4096, 8192] + ([20000, 65536, 70000] if max_blob > 65536 else [])))
-                out.append(("P", draw(st.integers(0, 5)), min(n, max_blob)))
+            n = draw(st.sampled_from(sizes + (HUGE_SIZES if huge else [])))
+            form = draw(st.sampled_from(["P", "P", "R", "B"]))
+            if form == "P" or (form == "B" and n > 200):
+                out.append(("P", draw(st.integers(0, 5)), n))
             elif form == "R":
-                n = draw(st.sampled_from([17, 127, 128, 1000, 5000, 16384]))
-                out.append(("R", draw(st.binary(min_size=1, max_size=4)), min(n, max_blob)))
-            elif form == "B":
-                out.append(("B", draw(st.binary(max_size=200))))
+                out.append(("R", draw(st.binary(min_size=1, max_size=4)), n))
             else:
-                n = draw(st.sampled_from([s for s in BOUNDARY_SIZES if s <= max_blob] + (HUGE_SIZES if huge else [])))
-                out.append(("P", draw(st.integers(0, 5)), n) if draw(st.booleans()) else ("R", b"\0", n))
+                out.append(("B", draw(st.binary(min_size=n, max_size=n))))
             root = len(out) - 1
             blobs.append(root)
             budget -= 1
             members = [root]
-            for _ in range(draw(st.integers(0, min(budget, 11 if family_bias else 3)))):
-                src = draw(st.sampled_from(members))
-                out.append(("E", src, draw(st.integers(0, 1000)), draw(st.integers(0, 40)),
-                            draw(st.one_of(small, st.just(b""), st.binary(min_size=100, max_size=300)))))
-                members.append(len(out) - 1)
+            chain = draw(st.booleans())
+            for _ in range(draw(st.integers(min(budget, maxmem) // 2, min(budget, maxmem)))):
+                src = members[-1] if chain else draw(st.sampled_from(members))
+                if dops and n >= 65536 and draw(st.integers(0, 2)) == 0:
+                    # explicit operations: a copy longer than 64 KiB (must be split) and offsets needing 1..3 bytes
+                    ops = []
+                    for _ in range(draw(st.integers(1, 3))):
+                        if draw(st.integers(0, 3)):
+                            off = draw(st.sampled_from([0, 1, 255, 256, 65535, 65536]))
+                            ln = draw(st.sampled_from([1, 100, 65535, 65536, 65537, 69000]))
+                            ops.append(("c", off, ln))
+                        else:
+                            ops.append(("i", draw(st.binary(min_size=1, max_size=130))))
+                    out.append(("D", root, ops))  # always over the root: its length is known to be n
+                else:
+                    out.append(("E", src, draw(st.integers(0, 1000)), draw(st.integers(0, 40)),
+                                draw(st.one_of(small, st.just(b""), st.binary(min_size=100, max_size=300)))))
+                    members.append(len(out) - 1)
                 blobs.append(len(out) - 1)
                 budget -= 1
-        for _ in range(draw(st.integers(0, max(0, min(budget, 6))))):
+        for _ in range(draw(st.integers(0, max(0, min(budget, maxextra))))):
             form = draw(st.sampled_from(["lit", "size", "empty", "dup"]))
             if form == "lit":
                 out.append(("B", draw(small)))
             elif form == "size":
-                out.append(("R", draw(st.binary(min_size=1, max_size=3)), draw(st.sampled_from([s for s in BOUNDARY_SIZES if s <= max_blob]))))
+                out.append(("R", draw(st.binary(min_size=1, max_size=3)), draw(st.sampled_from([x for x in BOUNDARY_SIZES if x <= max(sizes)]))))
             elif form == "empty":
                 out.append(("B", b""))
             else:
